@@ -1,6 +1,7 @@
 """Per-property configuration for bin/check."""
 
 KERNEL = "Lean 4.33.0 kernel; axioms allowed: propext, Classical.choice, Quot.sound (audited per theorem with #print axioms)"
+TRANSLATOR = "translator bin/extract (harness/cmd/extract/translate.go): Go fragments made of integer assignments, if, return, len, slice and index expressions are translated statement for statement into Generated/Translated.lean on every run (int arithmetic wraps at 64 bits, slice/index out of range = panic); trusted: go/parser, the 300-line translator and the semantics of Model/GoSem; units: clampRange, limitZSetMembers, List.Index, the GETRANGE window, the incdecExecutor overflow test, the DECRBY guard"
 TIE = "correspondence check: Go harness (bin/vh, built -tags verif from /repo's working tree) vs compiled Lean model driver on the same case lines"
 
 PROPS = {
@@ -65,7 +66,7 @@ PROPS["C07"] = dict(canon="serve", timeout=1200,
          "mass-disconnect cases (massdisc: 50 and 200 clients closed at the same instant, then a witness and an empty registry); plus stalled-writer witness cases (stallw): 1..3 clients that pipeline requests and never read, over unbuffered pipes, on the double and on the example store, while witness "
          "connections opened afterwards must get exact replies; "
          "oracle: no panic escapes the connection loop, the loop returns, the registry is empty afterwards, witnesses are served",
-    trusted_base=SERVE_TB, assumptions=SERVE_AS + ["process-level effects (OS limits, fatal runtime errors that are not panics) are outside the model"])
+    trusted_base=SERVE_TB + [TRANSLATOR], assumptions=SERVE_AS + ["process-level effects (OS limits, fatal runtime errors that are not panics) are outside the model"])
 PROPS["C10"] = dict(canon="serve", timeout=1200,
     rule="round 2: range-only ill-formed tokens ((1 (((2.5 ((-inf (( ( 1 (+ ((inf, (1 where a plain float is required, wider ill-formed integer/float pools (trailing NUL/newline, separators, 0b1 0o7 1_0, lone signs, 1L, 2^64+1, 1f, 1e+, parenthesis inside/behind the number); systematic enumeration over the independent grammar: each required position omitted, each value position replaced by a null bulk, each numeric position replaced by "
          "non-numeric/overflowing/fractional/hex/underscore tokens, each pair list cut to a dangling half, every SET exclusivity conflict and non-positive expiry, expiry values whose conversion to time.Duration wraps to zero, negative or small positive; option-bearing commands "
@@ -115,7 +116,7 @@ PROPS["C18"] = dict(canon="xserve", model_is_oracle=True, timeout=1200,
          "over a menu of 22..46 commands on a small key/member/value/score pool (collisions, re-adds, renames onto existing and identical keys, renamed containers used further / drained / renamed back, "
          "empty values, keys touched only by derived commands, pops beyond the end, LIMIT incl. offsets/counts at the int64 borders, REV, one- and two-sided exclusive bounds, containers of 20 and 33 members of every type with duplicates inside one SADD/ZADD/HMSET and pops larger than 16), "
          "plus random programs of 1..40 commands, one type or all mixed; replies compared with the Lean reference store (unordered replies as sorted arrays); non-trivial = every case",
-    trusted_base=[KERNEL, TIE, HOOK, "scores restricted to an exactly representable pool (multiples of 0.5, +-inf as bounds); strconv formatting of those",
+    trusted_base=[KERNEL, TIE, TRANSLATOR, HOOK, "scores restricted to an exactly representable pool (multiples of 0.5, +-inf as bounds); strconv formatting of those",
                   "sync.Map and Go map semantics of the example store"],
     assumptions=["each key is used with one data type; no expiry; SET options other than NX/GET, ZADD flags, LPOP k 0/1 distinctions, SCAN cursors are outside the claimed space (DESIGN.md Appendix B)"])
 
@@ -126,7 +127,7 @@ PROPS["C12"] = dict(canon="serve", prep=True, model_is_oracle=False, timeout=120
          "counters at the 64-bit boundaries and on stored values in Go literal syntax (0x10, 0b11, 1_000 ...), MGET/HMGET with 255..1100 keys, random programs of 1..12 commands over every framework-implemented command, string programs of 1..10 commands checked reply by reply against an "
          "independent sequential specification - once with the double (seqspec) and once with a real stateful Go string store behind the framework (sserve); "
          "non-trivial = every case",
-    trusted_base=SERVE_TB + ["the Lean reference store (Model/RefStore) supplies the primitive operations' results; scores from the exactly representable pool"],
+    trusted_base=SERVE_TB + [TRANSLATOR, "the Lean reference store (Model/RefStore) supplies the primitive operations' results; scores from the exactly representable pool"],
     assumptions=SERVE_AS + ["integers are what strconv.Atoi accepts (a leading + is tolerated)", "PING with an empty-string argument answers +PONG (handler interface cannot tell it from no argument): outside the claimed space"])
 
 LIFE_TB = [KERNEL, TIE, "a real server on loopback ports (chosen by bind probe), driven action by action; each observation taken after the server became quiescent (polled, 1.5 s cap)",
